@@ -62,12 +62,12 @@ func newPolicyEnv() *policyEnv {
 }
 
 func (e *policyEnv) probe(step func(string)) {
-	step("policy-manager-lock (SyncPodChains of a resident pod)")
+	step("policy-manager-lock(SyncPodChains-of-a-resident-pod)")
 	_ = e.pm.SyncPodChains(e.pods[0])
-	step("policy-manager-lock (Lock/Unlock)")
+	step("policy-manager-lock(Lock/Unlock)")
 	e.pm.Lock()
 	e.pm.Unlock() //nolint
-	step("fake-kernel-lock (iptables dump)")
+	step("fake-kernel-lock(iptables-dump)")
 	_ = e.ipt.Dump("filter")
 }
 
